@@ -4,6 +4,7 @@
 #![allow(dead_code)]
 pub mod json;
 pub mod mp;
+pub mod nary;
 pub mod report;
 pub mod rng;
 pub mod srcs;
